@@ -198,7 +198,7 @@ def run(ctx):
             except Exception as ex:
                 ctx.count('em-did-not-run')
         check_net(ctx, root, ncols, rs, n_pat, 2 if ctx.tier == 'quick' else 3, f'net{k}')
-        if ctx.n_new() >= 3:
+        if ctx.n_new(with_input_only=True) >= 3:
             break
 
 
